@@ -40,6 +40,10 @@ type Req struct {
 type strace struct {
 	Reqs    []Req  `json:"reqs"`
 	Reload  []bool `json:"reload"` // reload before request i
+	// DiskFail: while request i is served the directory of the state file is gone (every write of the
+	// state file fails). The signer may refuse or die (a panic is then a process crash: it is reloaded from
+	// disk once the directory is back); a signature it hands out must still be on disk afterwards.
+	DiskFail []bool `json:"diskFail,omitempty"`
 	KeySeed uint64 `json:"keySeed"`
 	Pass    string `json:"pass,omitempty"` // passphrase protecting the key file ("" = plaintext key file)
 }
@@ -126,7 +130,9 @@ func run(t *strace, dir string) ([]*chain.Violation, *chain.Probes, []string) {
 	_ = os.RemoveAll(dir)
 	_ = os.MkdirAll(dir, 0o755)
 	defer os.RemoveAll(dir)
-	r := &runner{dir: dir, keyFile: filepath.Join(dir, "key.json"), stateFile: filepath.Join(dir, "state.json"), probes: chain.NewProbes()}
+	stDir := filepath.Join(dir, "st")
+	_ = os.MkdirAll(stDir, 0o755)
+	r := &runner{dir: dir, keyFile: filepath.Join(dir, "key.json"), stateFile: filepath.Join(stDir, "state.json"), probes: chain.NewProbes()}
 	kb := sha256.Sum256([]byte(fmt.Sprintf("verif-signer-key-%d", t.KeySeed)))
 	priv := tmsecp.PrivKey(kb[:])
 	r.pv = rcrypto.NewSFilePV(priv, r.keyFile, r.stateFile)
@@ -146,6 +152,14 @@ func run(t *strace, dir string) ([]*chain.Violation, *chain.Probes, []string) {
 		}
 		cur := hrs{q.H, q.R, step(q.Kind)}
 		ts := t0.Add(time.Duration(q.TsMs) * time.Millisecond)
+		diskFail := i < len(t.DiskFail) && t.DiskFail[i]
+		crashed := false
+		if diskFail {
+			if e := os.Rename(stDir, stDir+".away"); e != nil {
+				panic(e)
+			}
+			r.probes.Hit("fault.disk-unwritable")
+		}
 		var sig []byte
 		var outTs time.Time
 		var signBytes, coreBytes []byte
@@ -154,6 +168,13 @@ func run(t *strace, dir string) ([]*chain.Violation, *chain.Probes, []string) {
 			defer func() {
 				if p := recover(); p != nil {
 					err = fmt.Errorf("panic: %v", p)
+					if diskFail {
+						// fail-stop on a disk that cannot be written: the process is gone, nothing was handed out
+						crashed = true
+						sig = nil
+						r.probes.Hit("fault.disk-unwritable.died")
+						return
+					}
 					r.fail(i, "signer.panic", "%v", p)
 				}
 			}()
@@ -173,6 +194,17 @@ func run(t *strace, dir string) ([]*chain.Violation, *chain.Probes, []string) {
 				coreBytes = tmtypes.VoteSignBytes(chainID, vz)
 			}
 		}()
+		if diskFail {
+			if e := os.Rename(stDir+".away", stDir); e != nil {
+				panic(e)
+			}
+			if crashed {
+				r.pv = rcrypto.LoadSFilePV(r.keyFile, r.stateFile, t.pass())
+				r.probes.Hit("fault.reload")
+			} else if err == nil && len(sig) > 0 {
+				r.probes.Hit("fault.disk-unwritable.answered")
+			}
+		}
 		if len(r.viol) > 0 {
 			break
 		}
@@ -375,11 +407,33 @@ func Explore(tier string, seed uint64, world int) *chain.WorldResult {
 		v[rng.Range(1, n-1)] = true
 		variants = append(variants, v)
 	}
+	// disk-failure variants: the state directory is unwritable during one request (every position of short
+	// sequences, sampled positions otherwise), alone and followed by a reload
+	type variant struct{ reload, disk []bool }
+	var vs []variant
+	for _, v := range variants {
+		vs = append(vs, variant{v, nil})
+	}
+	if t.Pass == "" {
+		for i := 1; i < n; i++ {
+			if n > 12 && !rng.Chance(12.0/float64(n)) {
+				continue
+			}
+			d := make([]bool, n)
+			d[i] = true
+			vs = append(vs, variant{none, d})
+			if i+1 < n {
+				rl := make([]bool, n)
+				rl[i+1] = true
+				vs = append(vs, variant{rl, d})
+			}
+		}
+	}
 	total := chain.NewProbes()
 	var log []string
 	tr := &chain.Trace{Version: 1, Engine: "signer-sim", Seed: seed, World: world}
-	for vi, v := range variants {
-		t.Reload = v
+	for vi, vv := range vs {
+		t.Reload, t.DiskFail = vv.reload, vv.disk
 		viol, probes, lg := run(t, scratch(world))
 		for k, c := range probes.C {
 			total.Add(k, c)
@@ -400,15 +454,18 @@ func Explore(tier string, seed uint64, world int) *chain.WorldResult {
 	}
 	b, _ := json.Marshal(t)
 	tr.Note = string(b)
-	return result(tr, t, nil, total, log, len(variants), start)
+	return result(tr, t, nil, total, log, len(vs), start)
 }
 
 func shrink(t *strace, check string, world int) *strace {
 	best := t
 	for i := len(best.Reqs) - 1; i >= 0; i-- {
-		c := &strace{KeySeed: best.KeySeed}
+		c := &strace{KeySeed: best.KeySeed, Pass: best.Pass}
 		c.Reqs = append(append([]Req(nil), best.Reqs[:i]...), best.Reqs[i+1:]...)
 		c.Reload = append(append([]bool(nil), best.Reload[:i]...), best.Reload[i+1:]...)
+		if len(best.DiskFail) == len(best.Reqs) {
+			c.DiskFail = append(append([]bool(nil), best.DiskFail[:i]...), best.DiskFail[i+1:]...)
+		}
 		v, _, _ := run(c, scratch(world))
 		if len(v) > 0 && v[0].Check == check {
 			best = c
@@ -416,7 +473,7 @@ func shrink(t *strace, check string, world int) *strace {
 	}
 	for i := range best.Reload {
 		if best.Reload[i] {
-			c := &strace{KeySeed: best.KeySeed, Reqs: best.Reqs, Reload: append([]bool(nil), best.Reload...)}
+			c := &strace{KeySeed: best.KeySeed, Pass: best.Pass, Reqs: best.Reqs, Reload: append([]bool(nil), best.Reload...), DiskFail: best.DiskFail}
 			c.Reload[i] = false
 			v, _, _ := run(c, scratch(world))
 			if len(v) > 0 && v[0].Check == check {
